@@ -224,7 +224,7 @@ Qed.
 Lemma start_one_wf sc stage m acc : fes_wf (w_fes (fst acc)) -> fes_wf (w_fes (fst (start_one sc stage m acc))).
 Proof.
   intros H. unfold start_one. destruct acc as [w its]. cbn [fst] in H.
-  destruct (stage <? h_stages (m_handler (cfg sc m))); [|exact H].
+  destruct ((stage <? h_stages (m_handler (cfg sc m))) && active (mstate w m)); [|exact H].
   destruct (activate 0 (mstate w m)) as [woken ms].
   destruct (at_sim_start 0 m (cfg sc m) woken stage (es0 (w_bud w))) as [s b].
   match goal with |- context [finish_event ?a ?b ?c ?d ?e ?f] =>
@@ -269,13 +269,21 @@ Proof.
 Qed.
 
 (* ---- the order of two sends of one event ---- *)
-Lemma pend_of_times now l : Forall (fun p => now <= fst p) (pend_of now l).
+Lemma pend1_times now e : Forall (fun p => now <= fst p) (pend1 now e).
 Proof.
-  unfold pend_of. apply Forall_forall. intros p Hp. apply in_flat_map in Hp. destruct Hp as (e & _ & Hp).
-  unfold pend1 in Hp. destruct (en_hook e); cbn in Hp; try contradiction.
-  - destruct Hp as [<-|[]]. cbn [fst]. lia.
-  - destruct Hp as [<-|[]]. destruct (delay =? 0); cbn [fst]; lia.
+  unfold pend1. destruct (en_hook e) as [| | | | | | | |d i|d i| |]; try (constructor; fail).
+  - constructor; [cbn [fst]; lia|constructor].
+  - constructor; [destruct (d =? 0); cbn [fst]; lia|constructor].
 Qed.
+
+Lemma pend_from_times now : forall l dd, Forall (fun p => now <= fst p) (pend_from now dd l).
+Proof.
+  induction l as [|e l IH]; intros dd; cbn [pend_from]; [constructor|].
+  apply Forall_app; split; [|apply IH]. destruct (dd && inline_send e); [constructor|apply pend1_times].
+Qed.
+
+Lemma pend_of_times now l : Forall (fun p => now <= fst p) (pend_of now l).
+Proof. apply pend_from_times. Qed.
 
 Theorem sends_keep_order sc w t ev f m a p1 b p2 c :
   Reach sc w -> fes_fetch (w_fes w) = Some (t, ev, f) -> ev_module ev = Some m ->
